@@ -27,10 +27,25 @@ func parqMain(args []string) {
 		recv := buildRecv(parts[1])
 		qs := strings.Split(parts[2], " ; ")
 		want := make([]string, len(qs))
+		// in every other structure the arguments are built once and shared: all goroutines then ask the very same question
+		// (same receiver, same argument instance), which is what "any number of goroutines may issue these queries" is about
+		shared := i%4 >= 2
+		var preps []prepared
+		if shared {
+			for _, q := range qs {
+				preps = append(preps, prepare(recv, q))
+			}
+		}
+		call := func(b *recvBox, k int, q string) (string, bool) {
+			if shared {
+				return invokePrepared(b, preps[k])
+			}
+			return invoke(b, q)
+		}
 		parallelFirst := i%2 == 1 || i < 8 // half of the structures are hit by the goroutines before any sequential call (first-use effects)
 		if !parallelFirst {
 			for k, q := range qs {
-				want[k], _ = invoke(recv, q)
+				want[k], _ = call(recv, k, q)
 			}
 		}
 		got0 := make([][]string, 16)
@@ -46,7 +61,7 @@ func parqMain(args []string) {
 				local := &recvBox{kind: recv.kind, s: recv.s, c: recv.c}
 				for rep := 0; rep < 3; rep++ {
 					for k, q := range qs {
-						got, _ := invoke(local, q)
+						got, _ := call(local, k, q)
 						if parallelFirst {
 							if rep == 0 {
 								got0[g][k] = got
@@ -66,7 +81,7 @@ func parqMain(args []string) {
 		wg.Wait()
 		if parallelFirst {
 			for k, q := range qs {
-				want[k], _ = invoke(recv, q)
+				want[k], _ = call(recv, k, q)
 				for g := 0; g < 16; g++ {
 					if got0[g][k] != want[k] && !strings.HasPrefix(q, "Addr") {
 						bad++
